@@ -262,10 +262,10 @@ func decsTerm(d *treeDumper, ds dst.Decorations) string { return "[" + d.decList
 
 func c08Corr(c *Ctx) {
 	fills := [][]string{
-		{"", "/*a*/ ", "/*a*/ /*a2*/ "},          // before X
-		{"", " /*b*/"},                            // X . (no line break allowed before the dot)
+		{"", "/*a*/ ", "/*a*/ /*a2*/ "}, // before X
+		{"", " /*b*/"},                  // X . (no line break allowed before the dot)
 		{"", " /*c*/ ", "\n\t\t", " // c\n\t\t", " /*c*/\n\t\t"}, // . Sel
-		{"", " /*d*/", " /*d*/ /*d2*/"},          // after Sel
+		{"", " /*d*/", " /*d*/ /*d2*/"},                          // after Sel
 	}
 	var cases []string
 	for a := range fills[0] {
